@@ -166,31 +166,33 @@ class kani_adapter:
             oc = {"status": r.status if r.status != "failed" else "failed", "reason": r.reason, "seconds": round(r.seconds, 2),
                   "checks": r.checks, "covers": list(r.covers), "backend": "kani 0.68 / cbmc 6.11 / " + o.solver}
             if r.status == "failed":
-                # counterexample + native replay on the real code
-                draws, check, cex_out = kani.counterexample(scratch, o.harness, timeout=o.timeout + 120)
-                oc["failed_check"] = check or r.reason
+                oc["failed_check"] = r.reason
                 oc["verifier_output"] = kani._tail(r.raw, 30)
-                if draws is not None and o.replayable:
-                    rep, rep_out = kani.native_replay(scratch, o.harness, draws)
-                    oc["draws"] = draws
-                    oc["native_replay"] = {True: "reproduced (panic on the real code)", False: "did not reproduce natively",
-                                           None: "inconclusive"}[rep]
-                    oc["native_output"] = kani._tail(rep_out, 25)
-                    oc["input_found"] = bool(rep)
-                    oc["fingerprint"] = "%s|%s" % (check or "", ";".join(",".join(map(str, d)) for d in draws))[:200]
-                elif draws is not None:
-                    oc["draws"] = draws
-                    oc["input_found"] = False
-                    oc["note"] = "harness uses stubs (uninterpreted callees); the counterexample is over the abstraction"
-                    oc["fingerprint"] = check or ""
-                    if o.witness:
-                        w = exec_engine.witness_search(ctx, o)
-                        if w:
-                            oc["witness"] = w
-                            oc["input_found"] = True
+                oc["fingerprint"] = re.sub(r"\(/[^)]*\)", "", r.reason)[:200]
+                oc["input_found"] = False
+                if o.replayable:
+                    # counterexample + native replay on the real code
+                    draws, check, cex_out = kani.counterexample(scratch, o.harness, timeout=o.timeout + 120)
+                    if check:
+                        oc["failed_check"] = check
+                        oc["fingerprint"] = check[:200]
+                    if draws is not None:
+                        rep, rep_out = kani.native_replay(scratch, o.harness, draws)
+                        oc["draws"] = draws
+                        oc["native_replay"] = {True: "reproduced (panic on the real code)", False: "did not reproduce natively",
+                                               None: "inconclusive"}[rep]
+                        oc["native_output"] = kani._tail(rep_out, 25)
+                        oc["input_found"] = bool(rep)
                 else:
-                    oc["input_found"] = False
-                    oc["fingerprint"] = check or ""
+                    oc["note"] = "harness uses stubs (uninterpreted callees / contracts); a counterexample would be over the abstraction, so a concrete input is searched with the paired bounded-exec obligation"
+                if not oc["input_found"] and o.witness:
+                    cache = ctx.setdefault("witness_cache", {})
+                    if o.witness not in cache:
+                        cache[o.witness] = exec_engine.witness_search(ctx, o)
+                    w = cache[o.witness]
+                    if w:
+                        oc["witness"] = w
+                        oc["input_found"] = True
             out[o.id] = oc
         return out
 
